@@ -9,7 +9,7 @@ REPO=${BCL_REPO_GIT:-/repo}
 TMP=$(mktemp -d /tmp/bclverif-selftest.XXXXXX) || { echo '{"skipped":"mktemp failed"}'; exit 0; }
 trap 'for w in $TMP/wt*; do git -C $REPO worktree remove --force $w >/dev/null 2>&1; done; rm -rf $TMP' EXIT
 git -C $REPO rev-parse HEAD >/dev/null 2>&1 || { echo '{"skipped":"/repo is not a git repository"}'; exit 0; }
-JOBS=6
+JOBS=8
 for i in $(seq 1 $JOBS); do git -C $REPO worktree add -q --detach $TMP/wt$i HEAD >/dev/null 2>&1 || { echo '{"skipped":"git worktree add failed"}'; exit 0; }; done
 ls -d $VERIF/seeded/$PROP-*/ 2>/dev/null | sed 's#/$##' | awk '{print "seed " $0}' > $TMP/jobs
 ls -d $VERIF/refactorings/*/ 2>/dev/null | sed 's#/$##' | awk '{print "refac " $0}' >> $TMP/jobs
